@@ -45,17 +45,21 @@ static void run_C14(const Args &a, long cs) {
 	// leaves them), and kernels much narrower than the knot spacing
 	bool repeated = r.coin(0.06); bool narrow = !repeated && r.coin(0.08);
 	if (repeated) { auto &kk = s.knots[dim]; unsigned oo = s.order[dim]; if (oo >= 1 && kk.size() >= 2 * oo + 4) { if (r.coin(0.5)) { size_t i = oo + 1 + r.below(kk.size() - 2 * oo - 3); kk[i] = kk[i + 1]; } else for (unsigned i = 0; i < oo; i++) { kk[i] = kk[oo]; kk[kk.size() - 1 - i] = kk[kk.size() - 1 - oo]; } } else repeated = false; }
+	// strongly graded knots in the convolved dimension (intervals growing geometrically) with a kernel spanning several of the fine intervals but less than the
+	// mean spacing: which old basis functions contribute to a new coefficient then differs widely along the axis
+	bool graded = !repeated && !narrow && r.coin(0.12); double graded_step0 = 0;
+	if (graded) { auto &kk = s.knots[dim]; graded_step0 = 0.02 + 0.03 * r.U(); double q = 1.4 + 0.4 * r.U(), st = graded_step0; bool rev = r.coin(0.3); std::vector<double> steps; for (size_t i = 1; i < kk.size(); i++) { steps.push_back(st); st *= q; } if (rev) std::reverse(steps.begin(), steps.end()); for (size_t i = 1; i < kk.size(); i++) kk[i] = kk[i - 1] + steps[i - 1]; }
 	bool ones = r.coin(0.2);
 	s.coef.resize(tot); for (auto &c : s.coef) c = ones ? 1.f : (float)(r.U() - 0.3);
 	int n = r.range(2, 6); // kernel knots
-	std::vector<double> tau; { double y0 = -r.U(); double wscale = std::pow(10.0, r.U() * 2 - 1.3); if (narrow) wscale = std::pow(10.0, -(double)r.range(3, 6)); bool sym = r.coin(0.3); for (int i = 0; i < n; i++) { tau.push_back(y0); y0 += (0.1 + r.U()) * wscale; } if (sym) { double c0 = 0.5 * (tau[0] + tau.back()); for (auto &t : tau) t -= c0; for (int i = 0; i < n / 2; i++) tau[n - 1 - i] = -tau[i]; if (n % 2) tau[n / 2] = 0; std::sort(tau.begin(), tau.end()); for (int i = 1; i < n; i++) if (!(tau[i] > tau[i - 1])) tau[i] = tau[i - 1] + 0.01 * wscale; } }
+	std::vector<double> tau; { double y0 = -r.U(); double wscale = std::pow(10.0, r.U() * 2 - 1.3); if (narrow) wscale = std::pow(10.0, -(double)r.range(3, 6)); if (graded) wscale = graded_step0 * (2 + 10 * r.U()); bool sym = r.coin(0.3); for (int i = 0; i < n; i++) { tau.push_back(y0); y0 += (0.1 + r.U()) * wscale; } if (sym) { double c0 = 0.5 * (tau[0] + tau.back()); for (auto &t : tau) t -= c0; for (int i = 0; i < n / 2; i++) tau[n - 1 - i] = -tau[i]; if (n % 2) tau[n / 2] = 0; std::sort(tau.begin(), tau.end()); for (int i = 1; i < n; i++) if (!(tau[i] > tau[i - 1])) tau[i] = tau[i - 1] + 0.01 * wscale; } }
 	// the unit of the convolved axis: the convolution commutes with a change of unit, so the same table with nanosecond-sized or mega-sized coordinates must do as well
 	{ static const double units[] = {1, 1, 1, 1, 1, 1e-9, 1e-7, 1e-3, 1e3, 1e6}; double u = units[r.below(10)]; if (u != 1) { for (auto &kk : s.knots[dim]) kk *= u; for (auto &tt : tau) tt *= u; bool inc = true; for (size_t i = 1; i < s.knots[dim].size(); i++) if (!(s.knots[dim][i] > s.knots[dim][i - 1])) inc = false; for (int i = 1; i < n; i++) if (!(tau[i] > tau[i - 1])) inc = false; if (!inc) return; char b[32]; snprintf(b, sizeof b, "%g", u); count(std::string("axis-unit:") + b); } else count("axis-unit:1"); }
 	s.flavor = "conv";
 	Table T; if (!load(T, s)) { viol("C14:load:well-formed-table-rejected", s.full_json()); return; }
 	Table T2; load(T2, s);
 	unsigned o = s.order[dim]; int nk = (int)s.knots[dim].size();
-	if (repeated) count("tables-with-repeated-knots-in-the-convolved-dimension"); if (narrow) count("kernels-much-narrower-than-the-knot-spacing");
+	if (graded) count("tables-with-geometrically-graded-knots-in-the-convolved-dimension"); if (repeated) count("tables-with-repeated-knots-in-the-convolved-dimension"); if (narrow) count("kernels-much-narrower-than-the-knot-spacing");
 	count("convolutions"); count("order:" + std::to_string(o)); count("kernel-knots:" + std::to_string(n)); count("ndim:" + std::to_string(nd)); if (ones) count("tables-all-ones");
 	std::string cj = "{\"dim\":" + std::to_string(dim) + ",\"kernel\":" + jarrd(tau) + ",\"table\":" + s.full_json() + "}";
 	phase_log("convolve"); context(cj);
@@ -143,6 +147,8 @@ static void run_C15(const Args &a, long cs) {
 	Spec s; size_t tot = 1;
 	for (int d = 0; d < nd; d++) { unsigned o = (unsigned)((d + r.below(2)) % 4); int nk = 2 * o + 2 + d + (nd <= 4 ? 1 : 0); s.order.push_back(o); s.knots.push_back(gen_knots(r, o, nk, 1, 1.0, d * 1.5, true)); tot *= (size_t)(nk - o - 1); s.periods.push_back(0.25 * (d + 1)); s.extents.push_back(s.knots[d][0] + 0.1 * (d + 1)); s.extents.push_back(s.knots[d].back() - 0.07 * (d + 1)); }
 	s.coef.resize(tot); for (size_t i = 0; i < tot; i++) s.coef[i] = (float)(i + 1) + (float)r.U() * 0.5f;
+	// "exactly the original values relocated" is a statement about bits: signed zeros and subnormal values among the coefficients
+	{ static const float sp[] = {-0.f, 0.f, 1e-42f, -1e-45f, -0.f}; size_t nsp = 1 + r.below(std::max<size_t>(1, tot / 6)); for (size_t q = 0; q < nsp; q++) s.coef[r.below(tot)] = sp[r.below(5)]; count("coefficients-with-special-bit-patterns", (long)nsp); }
 	s.flavor = "perm";
 	Table T, P; if (!load(T, s) || !load(P, s)) { viol("C15:load:well-formed-table-rejected", s.full_json()); return; }
 	std::string pj = "{\"permutation\":" + jarr(perm) + ",\"table\":" + s.brief() + "}";
@@ -192,7 +198,10 @@ static void run_C17(const Args &a, long cs) {
 	Rng r(a.seed, "C17", cs);
 	int nd = r.range(1, 4); Spec s; size_t tot = 1;
 	int flavor = (int)r.below(4);
-	for (int d = 0; d < nd; d++) { unsigned o = (unsigned)r.below(5); int nk = 2 * o + 2 + (int)r.below(nd >= 3 ? 4 : 7); s.order.push_back(o); s.knots.push_back(gen_knots(r, o, nk, flavor == 3 ? 3 : 1, 1.0, r.U() * 4 - 2, false)); tot *= (size_t)(nk - o - 1); }
+	// the unit of an axis: the same table with coordinates in joule (1.6e-19 per eV), nanoseconds or parsecs in metres; exact powers of ten are not exact in binary, which is the point
+	std::vector<double> unit(nd, 1.0); bool unitcase = r.coin(0.3);
+	for (int d = 0; d < nd; d++) { unsigned o = (unsigned)r.below(5); int nk = 2 * o + 2 + (int)r.below(nd >= 3 ? 4 : 7); s.order.push_back(o); s.knots.push_back(gen_knots(r, o, nk, flavor == 3 ? 3 : 1, 1.0, r.U() * 4 - 2, false)); tot *= (size_t)(nk - o - 1);
+		if (unitcase && r.coin(0.6)) { static const double us[] = {1.602176634e-19, 1e-12, 1e-9, 1e-6, 1e6, 1e12, 3.0857e16, 1e19}; unit[d] = us[r.below(8)]; for (auto &k : s.knots[d]) k *= unit[d]; char b[32]; snprintf(b, sizeof b, "%g", unit[d]); count(std::string("axis-unit:") + b); } else count("axis-unit:1"); }
 	double zero_frac = 0.5 + 0.45 * r.U();
 	s.coef.resize(tot); for (auto &c : s.coef) c = r.coin(zero_frac) ? 0.f : (float)(r.U() - 0.5);
 	if (r.coin(0.5)) { // zero out whole trailing / leading hyperplanes (edges of the coefficient array)
@@ -218,7 +227,7 @@ static void run_C17(const Args &a, long cs) {
 	Table T; if (!load(T, s)) { viol("C17:load:well-formed-table-rejected", s.full_json()); return; }
 	std::vector<std::vector<double>> grid(nd); size_t gtot = 1;
 	for (int d = 0; d < nd; d++) { const auto &k = s.knots[d]; int np = r.coin(0.15) ? 1 : 1 + (int)r.below(nd >= 3 ? 5 : 8);
-		for (int i = 0; i < np; i++) { double v; switch (r.below(7)) { case 0: v = k[r.below(k.size())]; break; case 1: v = k[0] - 0.5 - r.U(); break; case 2: v = k.back() + 0.3 + r.U(); break; case 3: v = std::nextafter(k[1 + r.below(k.size() - 1)], -INFINITY); break; default: v = k[0] + (k.back() - k[0]) * r.U(); } grid[d].push_back(v); }
+		for (int i = 0; i < np; i++) { double v; switch (r.below(7)) { case 0: v = k[r.below(k.size())]; break; case 1: v = k[0] - (0.5 + r.U()) * unit[d]; break; case 2: v = k.back() + (0.3 + r.U()) * unit[d]; break; case 3: v = std::nextafter(k[1 + r.below(k.size() - 1)], -INFINITY); break; default: v = k[0] + (k.back() - k[0]) * r.U(); } grid[d].push_back(v); }
 		if (np > 1 && r.coin(0.3)) grid[d][np - 1] = grid[d][0];
 		if (r.coin(0.12)) { // non-finite abscissae (not judged: not inside the knot range), sometimes most of an axis
 			static const double nf[] = {NAN, INFINITY, -INFINITY}; size_t how = r.coin(0.5) ? 1 : grid[d].size(); for (size_t q = 0; q < how; q++) if (how == 1 || r.coin(0.8)) grid[d][r.below(grid[d].size())] = nf[r.below(3)];
